@@ -229,7 +229,9 @@ func RunProp[C any](t *testing.T, p Prop[C]) {
 			cur, _ := json.Marshal(replayFile{Property: p.ID, Unit: p.Name, Case: cb})
 			_ = os.WriteFile(filepath.Join(dir, "current-case.json"), cur, 0o644)
 		}
+		stopWatch := watchCase(p.ID, p.Name, cb)
 		v := p.Run(t, c)
+		stopWatch()
 		if v.Harness == "" {
 			v.Harness = memGuard()
 		}
@@ -285,6 +287,99 @@ func RunProp[C any](t *testing.T, p Prop[C]) {
 }
 
 type harnessPanic string
+
+// watchCase guards one case against never coming back. A goroutine of the
+// client that spins without ever blocking keeps a synctest bubble from
+// becoming idle, so the harness would wait for ever (and so would a real
+// caller). After VERIF_CASE_LIMIT_S real seconds (default 240) two goroutine
+// dumps are taken five seconds apart: a goroutine that is running or runnable
+// in both and whose innermost non-runtime frame is client code is a busy loop
+// of the client; the case and the stack are written to busy-loop.json in the
+// statistics directory and the process exits with code 97 (the driver reports
+// a violation with that case as replay file). Anything else exits with 98
+// (inconclusive).
+func watchCase(prop, unit string, caseJSON []byte) (stop func()) {
+	limit := 240
+	if s := os.Getenv("VERIF_CASE_LIMIT_S"); s != "" {
+		if n, err := strconv.Atoi(s); err == nil && n > 0 {
+			limit = n
+		}
+	}
+	done := make(chan struct{})
+	go func() {
+		select {
+		case <-done:
+			return
+		case <-time.After(time.Duration(limit) * time.Second):
+		}
+		first := busyGoroutines()
+		select {
+		case <-done:
+			return
+		case <-time.After(5 * time.Second):
+		}
+		second := busyGoroutines()
+		code, stack := 98, ""
+		for id, st := range second {
+			if _, ok := first[id]; ok {
+				code, stack = 97, st
+				break
+			}
+		}
+		if dir := os.Getenv("VERIF_STATS_DIR"); dir != "" {
+			rf := replayFile{Property: prop, Unit: unit, Case: caseJSON, Sig: prop + "/client-busy-loop",
+				Violation: fmt.Sprintf("the case did not come back within %d s; a client goroutine is spinning", limit),
+				Trace:     strings.Split(stack, "\n")}
+			if code == 98 {
+				rf.Sig, rf.Violation = "", fmt.Sprintf("the case did not come back within %d s and no client goroutine is spinning", limit)
+			}
+			b, _ := json.MarshalIndent(rf, "", " ")
+			_ = os.WriteFile(filepath.Join(dir, "busy-loop.json"), b, 0o644)
+		}
+		fmt.Printf("CASE-WATCHDOG exit %d\n%s\n", code, stack)
+		os.Exit(code)
+	}()
+	return func() { close(done) }
+}
+
+// busyGoroutines returns, by goroutine id, the stacks of the goroutines that
+// are running or runnable with client code as innermost non-runtime frame.
+func busyGoroutines() map[string]string {
+	buf := make([]byte, 1<<20)
+	for {
+		n := runtime.Stack(buf, true)
+		if n < len(buf) {
+			buf = buf[:n]
+			break
+		}
+		buf = make([]byte, 2*len(buf))
+	}
+	out := map[string]string{}
+	for _, blk := range strings.Split(string(buf), "\n\n") {
+		lines := strings.Split(blk, "\n")
+		if len(lines) < 2 || !strings.HasPrefix(lines[0], "goroutine ") {
+			continue
+		}
+		head := lines[0]
+		if !strings.Contains(head, "[running") && !strings.Contains(head, "[runnable") {
+			continue
+		}
+		for _, l := range lines[1:] {
+			if strings.HasPrefix(l, "\t") || strings.HasPrefix(l, "created by") {
+				continue
+			}
+			if strings.HasPrefix(l, "runtime.") || strings.HasPrefix(l, "runtime/") || strings.HasPrefix(l, "internal/") || strings.HasPrefix(l, "sync.") || strings.HasPrefix(l, "sync/") || strings.HasPrefix(l, "time.") {
+				continue
+			}
+			if strings.HasPrefix(l, "github.com/lightninglabs/neutrino") {
+				id := strings.Fields(head)[1]
+				out[id] = blk
+			}
+			break
+		}
+	}
+	return out
+}
 
 var memChecks int
 
@@ -371,7 +466,9 @@ func regress[C any](t *testing.T, p Prop[C], st *Stats, known map[string]knownFi
 			_ = os.WriteFile(filepath.Join(dir, "current-case.json"), cur, 0o644)
 		}
 		for k := 0; k < n; k++ {
+			stopWatch := watchCase(p.ID, p.Name, []byte(rf.Case))
 			v := p.Run(t, c)
+			stopWatch()
 			if v.Harness != "" {
 				st.Harness = "regression case " + filepath.Base(f) + ": " + v.Harness
 				return nil
@@ -418,6 +515,9 @@ func replay[C any](t *testing.T, p Prop[C], path string) {
 		v := p.Run(t, c)
 		if v.Harness != "" {
 			t.Fatalf("HARNESS-ERROR %s", v.Harness)
+		}
+		if os.Getenv("VERIF_TRACE") != "" {
+			fmt.Printf("TRACE run %d\n%s\n", i, strings.Join(v.Trace, "\n"))
 		}
 		if v.Violation != "" {
 			hits++
